@@ -14,7 +14,7 @@ RULE = ('(a) ALL type hints (lo, hi) with -9 <= lo <= hi <= 9 (thorough: -17..17
         'and all unions of <= 2 points. (b) automata with one variable per '
         'sign class, a Boolean and a rigid constant; 20-formula menu: '
         'unprime(prime(u)) = u, table(prime(u)) = renamed table, '
-        'replace_with_primed/unprimed for EVERY subset of variables, support '
+        'replace_with_primed/unprimed for EVERY subset of variables (for actions too, where the copy substituted in is already read, and unprime of proper actions), support '
         'classification vs. semantic dependence; an identifier declared first as a constant and later as a variable, with and without queries in between. non-trivial = hint does not '
         'fill its bitfield / predicate depends on a flexible variable; '
         'distinct = hint / (automaton, predicate, back end)')
@@ -260,10 +260,13 @@ PMENU = {
            "(x > y) /\\ (z < y)", "x <= c /\\ ~ p", "d => (z = -4)",
            "x' = x", "y' = y + 1 /\\ p'", "x' = c", "p' <=> d",
            "z' < z \\/ x' > x", "x' + y' = 1", "p' /\\ x' = 3",
+           "(x < x') /\\ (y' = 1)", "(p <=> ~ p') /\\ (z' = z - 1)",
+           "(x' = y) /\\ (y' = x - 2)",
            "(c = 1) /\\ d", "x = 3 \\/ y = -3"],
     'P2': ["q", "x = 7", "y = -2", "c = -1", "x + y = c + 3",
            "q => (x > y + c)", "x' = x + 1", "q' <=> ~ q", "y' = c",
-           "x' > y'", "c = -2 /\\ x' = 0", "q /\\ q'"],
+           "x' > y'", "c = -2 /\\ x' = 0", "q /\\ q'",
+           "(x' > x) /\\ (y' < y)", "x' = x + y"],
 }
 
 
@@ -374,6 +377,58 @@ def run_prime(case, acc):
             n += 1
             if prm.prime(uu, aut) != u:
                 bad('prime_of_unprime_differs')
+        # an action: substituting primed copies for variables (or back)
+        # where the predicate ALREADY reads the copy substituted in - the
+        # result's value at an assignment is the original's at the
+        # assignment with the replaced identifier reading its copy
+        pflex = sorted({v.rstrip("'") for v in names
+                        if v in flex or v in primed})
+        for S in subsets(pflex):
+            if not S:
+                continue
+            for to_primed in (True, False):
+                n += 1
+                both = sorted(set(names) | set(S) | {v + "'" for v in S})
+                if len(both) > 7:
+                    continue
+                brd = ro.Reader(aut, both)
+                TB = brd.table(u)
+                ix = {v: i for i, v in enumerate(both)}
+                exp_rows = set()
+                for row in brd.space():
+                    r2 = list(row)
+                    for v in S:
+                        if to_primed:
+                            r2[ix[v]] = row[ix[v + "'"]]
+                        else:
+                            r2[ix[v + "'"]] = row[ix[v]]
+                    if tuple(r2) in TB:
+                        exp_rows.add(row)
+                r = (aut.replace_with_primed(S, u) if to_primed
+                     else aut.replace_with_unprimed(S, u))
+                if brd.table(r) != exp_rows:
+                    bad('replace_in_action_wrong', subset=S,
+                        to_primed=to_primed, vars=both)
+                    break
+        if sem['flexible']:
+            # unprime of a proper action: every primed variable in the
+            # support reads its unprimed copy
+            n += 1
+            both = sorted(set(names) | {v.rstrip("'") for v in names})
+            if len(both) <= 7:
+                brd = ro.Reader(aut, both)
+                TB = brd.table(u)
+                ix = {v: i for i, v in enumerate(both)}
+                exp_rows = set()
+                for row in brd.space():
+                    r2 = list(row)
+                    for v in names:
+                        if v in primed:
+                            r2[ix[v]] = row[ix[v.rstrip("'")]]
+                    if tuple(r2) in TB:
+                        exp_rows.add(row)
+                if brd.table(prm.unprime(u, aut)) != exp_rows:
+                    bad('unprime_of_action_wrong', vars=both)
         n += 1
         if prm.is_primed_state_predicate(u, aut) != (not sem['flexible']):
             bad('is_primed_state_predicate_wrong',
